@@ -96,6 +96,22 @@ def run(chk: Check, drv: Driver):
         if rep != "true":
             chk.violation(f"kernel reads {i}_dim although index {i} is stored only in compressed levels and mentioned by every term",
                           pr.case(index=i))
+    # hypotheses of the universal theorem `generateIr_deadDim` (Props/C16Lowering.lean) on the graph the model
+    # chooses: dimFree (every level of index i compressed, every loop over i lowered as a sparse loop) and
+    # namesClear. Where they hold the certificate above is a THEOREM for the ported lowering pass (all kinds,
+    # optimised or not); where a qualifying index does not meet them the per-kernel certificate stands alone.
+    from .. import algebra
+
+    reqs = []
+    for pr, i in meta:
+        fs = [[n, "".join(pr.fmts[n][0]), list(pr.fmts[n][1])] for n in pr.problem.formats.keys()]
+        reqs.append("DIMFREE " + sx(algebra.export_assignment(pr.assignment)) + " " + sx(fs) + " " + sx(i))
+    for (pr, i), rep in zip(meta, drv.batch(reqs)):
+        if isinstance(rep, list) and len(rep) == 2 and rep[0] in ("true", "false"):
+            chk.count("theorem_hypothesis_dimFree_" + rep[0])
+            chk.count("theorem_hypothesis_namesClear_" + rep[1])
+        else:
+            chk.count("theorem_hypothesis_not_evaluated")
     # measurements
     items, tags = [], []
     for pr, q in found:
